@@ -64,3 +64,9 @@ ASSUME.update({
          "unforgeability of OpenPGP signatures is a hypothesis of the tamper theorem (signed_by)",
          "the signature text produced by Sign is base64 (contains no comma); unicode.IsSpace is modelled on ASCII white space (what can end a UTF-8 JSON text)"],
 })
+ASSUME.update({
+ "C11": ["age (X25519 + ChaCha20-Poly1305 STREAM) is an ideal authenticated encryption: only ciphertexts produced with the identity decrypt, and they decrypt to what was encrypted; the adversary has no key (symbolic model: CJunk or copies)",
+         "hashes naming ciphertexts are collision-free (a name is identified with the ciphertext it was computed from)",
+         "confidentiality of ciphertext bytes and of blob names is not proved (raw scan of everything written below the store is a test)",
+         "ReceiveBlob is atomic in the model; the wrapped stores and the meta index are maps (C01, C10)"],
+})
